@@ -43,6 +43,9 @@ def main(argv=None):
                 mod.selftest(res)
             from . import selftest as _st
             _st.run(pid, res)
+            if pid in ("C14", "C16", "C22"):
+                from . import selftest_finite as _sf
+                _sf.run(pid, res)
         code = res.finish()
         if a.replay:
             with open(a.replay) as f:
